@@ -13,6 +13,8 @@ from . import C12
 from .C06 import WINDOW_HI
 
 LEVEL = "exploration"
+TECHNIQUE = 'runtime monitoring: simulated-world oracle (true trajectories) + state invariants checked after every process_raw call; differential lower-case replay; exactly-once monitor on Decode.run()'
+LEVEL_TEXT = 'Exploration over thousands of short generated histories with directed scenarios (outages, evictions, NL/equator/antimeridian crossings, surface<->airborne).'
 LEVEL_RULE = (
     "Decode.process_raw driven with generated histories (1-6 simulated aircraft flying great-circle legs and turns at up to "
     "600 kt, airborne or on the surface, emitting reference-encoded CPR position frames plus velocity/identification/status/"
